@@ -125,6 +125,10 @@ pub enum FaultAt {
     Read(usize),
     /// n-th call of `op` whose world-relative path ends with `suffix`
     PathOp { suffix: String, op: Op, nth: usize },
+    /// EVERY call that would add or remove an entry of the directory whose path ends with
+    /// `dir_suffix` (create, unlink, mkdir, rmdir, rename): a directory without write
+    /// permission. Writing to files that already exist there still works.
+    DirReadOnly { dir_suffix: String },
 }
 
 #[derive(Clone, Debug, PartialEq, Eq, Serialize, Deserialize)]
@@ -237,6 +241,8 @@ pub struct SimCtx {
     rseq: u32,
     pathop_counts: BTreeMap<(u8, String), usize>,
     pub frozen: bool,
+    /// set by the caller of `fault_for`: the object the call acts on exists
+    cur_existed: bool,
     pub stdout: Vec<u8>,
     pub stderr: Vec<u8>,
     pub fired: Vec<(String, String)>,
@@ -264,6 +270,7 @@ impl SimCtx {
             rseq: 0,
             pathop_counts: BTreeMap::new(),
             frozen: false,
+            cur_existed: true,
             stdout: Vec::with_capacity(4096),
             stderr: Vec::with_capacity(1024),
             fired: vec![],
@@ -317,6 +324,11 @@ impl SimCtx {
             let matched = match &f.at {
                 FaultAt::Mut(k) => m == Some(*k as u32),
                 FaultAt::Read(k) => r == Some(*k as u32),
+                FaultAt::DirReadOnly { dir_suffix } => {
+                    let parent = path.rsplit_once('/').map(|x| x.0).unwrap_or("");
+                    parent.ends_with(dir_suffix.as_str())
+                        && (matches!(op, Op::Unlink | Op::Rmdir | Op::Mkdir | Op::Rename | Op::Link | Op::Symlink) || (op == Op::OpenW && !self.cur_existed))
+                }
                 FaultAt::PathOp { suffix, op: fop, nth } => {
                     if *fop == op && path.ends_with(suffix.as_str()) {
                         let key = (i as u8, suffix.clone());
@@ -641,6 +653,7 @@ unsafe fn do_open(c: &mut SimCtx, dirfd: c_int, path: *const c_char, flags: c_in
     }
     let op = if writing { Op::OpenW } else { Op::OpenR };
     let existed = lexists(&rp);
+    c.cur_existed = existed;
     let (m, r, fault) = c.fault_for(op, &rp);
     if writing && !c.frozen && jailed(c, &rp) {
         c.push_jail(op, m, r, rp, String::new(), flags, existed);
@@ -909,6 +922,7 @@ unsafe fn do_simple(
     c.count(sym);
     let rp = resolve(dirfd, path, false);
     let existed = lexists(&rp);
+    c.cur_existed = existed;
     let (m, r, fault) = c.fault_for(op, &rp);
     if !c.frozen && jailed(c, &rp) && !(op == Op::Mkdir && existed) {
         c.push_jail(op, m, r, rp, String::new(), flags, existed);
